@@ -43,8 +43,8 @@ def build_harness(wd, race=False):
     mod = open(os.path.join(HARNESS, "go.mod")).read()
     if REPO != "/repo":
         # an alternative tree (used when validating seeded changes): private copy of the module
-        h2 = os.path.join(wd, "harness-src")
-        shutil.copytree(HARNESS, h2)
+        h2 = os.path.join(wd, "harness-src-race" if race else "harness-src")
+        shutil.copytree(HARNESS, h2, dirs_exist_ok=True)
         open(os.path.join(h2, "go.mod"), "w").write(mod.replace("=> /repo", "=> " + REPO))
         cwd = h2
     else:
